@@ -16,6 +16,8 @@ import (
 	"github.com/scrapli/scrapligo/driver/netconf"
 	"github.com/scrapli/scrapligo/driver/network"
 	"github.com/scrapli/scrapligo/driver/options"
+	"github.com/scrapli/scrapligo/logging"
+	"github.com/scrapli/scrapligo/util"
 
 	"verif/harness/sim"
 )
@@ -66,6 +68,9 @@ func genC07(r *sim.Rng) *c07Case {
 	c.Driver = r.Pick([]string{"generic", "generic", "network", "network-hook", "netconf", "netconf"})
 	c.State = r.Pick([]string{"idle", "blocked", "eof", "ioerr", "data-arriving", "error-arriving", "second-close", "after-op"})
 	c.OnClose = r.Intn(3)
+	if c.Driver == "netconf" && r.Intn(6) == 0 {
+		c.State = "reply-stored-late"
+	}
 	c.DelayUS = []int{1, 20, 250, 1000}[r.Intn(4)] // grace = delay*(delay/1000): 1 ms -> 1 s
 	c.JitterUS = []int{0, 0, 50, 300, 1500, 5000}[r.Intn(6)]
 	return c
@@ -100,6 +105,14 @@ func runC07(seed uint64, n int, tier string) {
 					}
 				}
 			}
+		}
+	}
+	// NETCONF: a complete reply arrives while Close runs; the read loop is held (by a user logger
+	// that blocks on the library's own debug message) between "message recognised" and "message
+	// stored" until Close has returned -- the store must still be usable
+	for oc := 0; oc < 3; oc++ {
+		for _, dl := range []int{20, 250} {
+			cases = append(cases, &c07Case{Driver: "netconf", State: "reply-stored-late", OnClose: oc, DelayUS: dl})
 		}
 	}
 	for i := 0; i < n; i++ {
@@ -217,6 +230,8 @@ func c07ModelScenario(c *c07Case) (driver, state, tstate string, second, user in
 	case "second-close":
 		state = "blocked"
 		second = 1
+	case "reply-stored-late":
+		state = "data-arriving"
 	}
 	tstate = state
 	if c.Driver == "network-hook" {
@@ -322,6 +337,49 @@ func (y *yieldCtl) yield(label string) {
 	}
 }
 
+// gate holds the goroutine that calls hold() (once armed) until release().
+type gate struct {
+	mu       sync.Mutex
+	armed    bool
+	held     chan struct{}
+	released chan struct{}
+}
+
+var logGate = &gate{held: make(chan struct{}), released: make(chan struct{})}
+
+func (g *gate) arm() { g.mu.Lock(); g.armed = true; g.mu.Unlock() }
+func (g *gate) hold() {
+	g.mu.Lock()
+	a := g.armed
+	g.armed = false
+	g.mu.Unlock()
+	if !a {
+		return
+	}
+	close(g.held)
+	select {
+	case <-g.released:
+	case <-time.After(5 * time.Second):
+	}
+}
+func (g *gate) waitHeld(d time.Duration) bool {
+	select {
+	case <-g.held:
+		return true
+	case <-time.After(d):
+		return false
+	}
+}
+func (g *gate) release() {
+	g.mu.Lock()
+	defer g.mu.Unlock()
+	select {
+	case <-g.released:
+	default:
+		close(g.released)
+	}
+}
+
 func c07Child() {
 	var c c07Case
 	if json.Unmarshal([]byte(os.Getenv("VERIF_C07_CHILD")), &c) != nil {
@@ -350,7 +408,16 @@ func c07Child() {
 	var closer func() error
 	switch c.Driver {
 	case "netconf":
-		d, err := netconf.NewDriver("sim", options.WithCustomTransport(tr), options.WithReadDelay(delay), options.WithTimeoutOps(2*time.Second))
+		ncOpts := []util.Option{options.WithCustomTransport(tr), options.WithReadDelay(delay), options.WithTimeoutOps(2 * time.Second)}
+		if c.State == "reply-stored-late" {
+			li, _ := logging.NewInstance(logging.WithLevel("debug"), logging.WithLogger(func(a ...interface{}) {
+				if strings.Contains(fmt.Sprint(a...), "storing") {
+					logGate.hold()
+				}
+			}))
+			ncOpts = append(ncOpts, options.WithLogger(li))
+		}
+		d, err := netconf.NewDriver("sim", ncOpts...)
 		if err != nil || d.Open() != nil {
 			fmt.Println(`{"panicked":"setup failed"}`)
 			return
@@ -450,6 +517,12 @@ func c07Child() {
 		}
 		time.Sleep(2 * time.Millisecond)
 		resetTrace()
+	case "reply-stored-late":
+		resetTrace()
+		logGate.arm()
+		msg := `<rpc-reply xmlns="urn:ietf:params:xml:ns:netconf:base:1.0" message-id="4711"><ok/></rpc-reply>`
+		tr.Inject(sim.Atoms([]byte(fmt.Sprintf("\n#%d\n%s\n##\n", len(msg), msg))))
+		logGate.waitHeld(300 * time.Millisecond) // the read loop stands right before storeMessage
 	case "data-arriving":
 		resetTrace()
 		go func() { tr.Inject(sim.Atoms([]byte("unsolicited output\r\nrouter#"))) }()
@@ -514,6 +587,10 @@ func c07Child() {
 	}
 	o.CloseMS = float64(time.Since(t0).Microseconds()) / 1000
 	o.Closed = tr.Closed()
+	if c.State == "reply-stored-late" {
+		logGate.release() // only now does the read loop go on to store the message
+		time.Sleep(20 * time.Millisecond)
+	}
 	if c.State == "second-close" && o.Returned && o.Panicked == "" {
 		res2 := make(chan string, 1)
 		go func() {
